@@ -123,7 +123,7 @@ def _controlled(base, attempt, max_runs, grid, grid_only=False):
     return None
 
 
-def stress(kind, n, origins, prefill, threads, after, symptom, rounds=20000, timeout_s=120):
+def stress(kind, n, origins, prefill, threads, after, symptom, rounds=200000, timeout_s=150):
     """fallback: uncontrolled replay -- the same thread programs on free-running OS threads, a fresh object per round. Needed when
     the model schedule switches threads between two shared accesses of ONE statement, where no yield hook can sit."""
     ok, err = build()
